@@ -278,10 +278,14 @@ impl StreamData {
         let start_idx = self.entries.binary_search_by(|e| e.id.cmp(start))
             .unwrap_or_else(|idx| idx);
         
-        let end_idx = self.entries.binary_search_by(|e| e.id.cmp(end))
-            .unwrap_or_else(|idx| if idx > 0 { idx - 1 } else { 0 });
-        
         let mut result_entries = Vec::new();
+        
+        // Index of the last entry with id <= end; none when every entry is greater
+        let end_idx = match self.entries.binary_search_by(|e| e.id.cmp(end)) {
+            Ok(idx) => idx,
+            Err(0) => return StreamRangeResult { entries: result_entries },
+            Err(idx) => idx - 1,
+        };
         
         if reverse {
             for i in (start_idx..=end_idx.min(self.entries.len().saturating_sub(1))).rev() {
